@@ -888,7 +888,16 @@ class TorConfig:
                 # same treatment as the initial values get in _do_setup
                 parser = self.parsers[real_name]
                 try:
-                    if is_list_config_type(parser.__class__):
+                    if real_name in self.list_parsers and \
+                       not is_list_config_type(parser.__class__):
+                        # a port list: its lines are kept as they are
+                        if v == DEFAULT_VALUE:
+                            v = defaults.get(real_name, [])
+                        if not isinstance(v, list):
+                            v = [v]
+                        v = _ListWrapper(
+                            v, functools.partial(self.mark_unsaved, real_name))
+                    elif is_list_config_type(parser.__class__):
                         v = parser.parse(v)
                         if v == [DEFAULT_VALUE]:
                             v = defaults.get(real_name, [])
